@@ -17,13 +17,11 @@ class FloatBuilder(Builder):
         super().__init__(h, schema)
         self.model = model
 
-    def value(self, ty, t):
-        if isinstance(t, Sym):
-            v = self.model[t.name]
-            if t.sort == "real":
-                return float(v)
-            return v
-        return super().value(ty, t)
+    def leaf_sym(self, t):
+        v = self.model[t.name]
+        if t.sort == "real":
+            return float(v)
+        return v
 
 
 def sample_models(case, mir, schema, n, seed):
